@@ -11,6 +11,7 @@ pub(crate) mod h_realloc;
 pub(crate) mod h_scope;
 pub(crate) mod h_typed;
 pub(crate) mod h_coll;
+pub(crate) mod h_grow;
 pub(crate) mod h_selftest;
 
 /// Concrete playback tests of failed obligations (generated on demand by vf/run_kani.py;
